@@ -6,6 +6,17 @@ const v2pkg = "app/core/hydra/swamp/chronicler/v2"
 
 var Checks = []CheckDef{
 	{
+		ID: "C21", Title: "Swamp settings resolve deterministically from registered patterns",
+		Claim:   "bounded symbolic execution of the real settings package: up to maxSteps register / re-register / deregister steps over overlapping patterns (exact name, realm wildcard, swamp wildcard, non-matching realm, other sanctuary) with SYMBOLIC idle timeout and write interval and either swamp type, in every order, and for EVERY map iteration order of the pattern map during lookup and during reload: the settings resolved for the swamp are those of the most specific registered matching pattern (the default when none matches), and the same again after a restart that reloads the persisted model",
+		Trusted: "json.MarshalIndent/Unmarshal are replaced by a deep copy of the settings model (the real JSON round trip runs in the native replay); map iteration order is a decision variable (up to 3 entries: every permutation)",
+		Harnesses: []HarnessDef{
+			{Pkg: "app/core/settings", Func: "VerifC21Settings", Quick: map[string]int{"maxSteps": 2}, Thorough: map[string]int{"maxSteps": 2}, Covers: []string{"end"}},
+		},
+		Assumptions: []string{"specificity = exact > realm-specific wildcard > full wildcard; patterns of equal specificity (s/r/* vs s/*/w) are not mixed"},
+		Stubs:       []string{"encoding/json.MarshalIndent/Unmarshal = model copy (h.Stub)", "os.* = in-memory FS model"},
+		Outside:     []string{"more than maxSteps registrations", "concurrent registration"},
+	},
+	{
 		ID: "C05", Title: "Close and reload preserve every record exactly",
 		Claim:   "bounded symbolic execution of the real treasure setters/getters, ConvertToByte and LoadFromByte (the exact pair the chronicler uses to store and reload a record) for every one of the 14 content types with a fully symbolic value (strings/byte arrays/uint32 sets up to 2 elements; zero-like values included) and symbolic created/updated/expiry/created-by metadata: after encode + decode into a fresh record the key, metadata, existence of content, content type and value are identical",
 		Trusted: "encoding/gob is a contract model written from its documentation (zero-valued fields are not transmitted, also behind non-nil pointers; decoding leaves absent fields untouched); the model is validated against the real gob on every run by native replay of sampled paths and of every counter-example",
